@@ -316,6 +316,40 @@ theorem rename_preserves_binding_partial (cfg : Config) (es : List Event)
   exact sim (protectedNames cfg es) es (State.init (avoidList cfg es) cfg.includeFunctions) [] 0
     (Good.init _ _ _) hfn hgl (genOk_of_selfNotGenerated hs)
 
+/-- `Hself` holds whenever `self` is protected — e.g. listed in `globals`, or used as a global
+somewhere in the file.  (This is also the proposed fix: always put `self` in
+`avoid_identifier`.) -/
+theorem hself_of_protected (cfg : Config) (es : List Event)
+    (h : selfName ∈ protectedNames cfg es) : Hself cfg es = true := by
+  unfold Hself selfNotGenerated
+  rw [List.all_eq_true]
+  intro o ho
+  have := rename_generated_not_protected cfg es o ho
+  cases o with
+  | insert x =>
+    simp only [GenOk] at this
+    simp only [bne_iff_ne, ne_eq]
+    intro he; exact this (he ▸ h)
+  | insertLocal x =>
+    simp only [GenOk] at this
+    simp only [bne_iff_ne, ne_eq]
+    intro he; exact this (he ▸ h)
+  | insertLocalFunction f =>
+    simp only [GenOk] at this
+    cases hi : cfg.includeFunctions with
+    | false => simp
+    | true =>
+      simp only [Bool.not_true, Bool.false_or, bne_iff_ne, ne_eq]
+      intro he; exact this hi (he ▸ h)
+  | _ => rfl
+
+/-- With `self` among the configured globals the property holds at full strength. -/
+theorem rename_preserves_binding_self_listed (cfg : Config) (es : List Event)
+    (hg : HGlobals cfg es = true) (h : selfName ∈ cfg.globals) :
+    resolve (renameRule cfg es) = resolve es ∧ globalUses (renameRule cfg es) = globalUses es :=
+  rename_preserves_binding_partial cfg es hg
+    (hself_of_protected cfg es (by simp [protectedNames, avoidList, h]))
+
 /-- non-vacuity: shadowing, a closure-like nested scope, reuse after a scope closes, a global
 named like the first generated name, a method with implicit `self` -/
 def sampleStream : List Event :=
@@ -327,5 +361,9 @@ def sampleStream : List Event :=
 example : HGlobals ⟨[], false, true⟩ sampleStream = true ∧ Hself ⟨[], false, true⟩ sampleStream = true ∧
     resolve sampleStream = [some 1, none, some 0, none, some 2, some 3, some 0, some 4] ∧
     renameRule ⟨[], false, true⟩ sampleStream ≠ sampleStream := by decide
+
+example : HGlobals ⟨[selfName], true, true⟩ sampleStream = true ∧
+    selfName ∈ (⟨[selfName], true, true⟩ : Config).globals := by
+  decide
 
 end DarkluaModel.C09
